@@ -19,7 +19,7 @@ PROP = "C10"
 LEVEL = "fault_enumeration"
 BUDGET = {"quick": 150, "thorough": 900}
 EXHAUSTIVE = {"quick": True, "thorough": True}
-RULE = ("Grid (complete): starttls argument {False,True} x server STARTTLS support {no,yes} x SASL announcement variant "
+RULE = ("Grid (complete): starttls argument {False, True, 1 (truthy, not the True singleton)} x server STARTTLS support {no,yes} x SASL announcement variant "
         "(same pre/post; pre PLAIN -> post LOGIN only; pre none -> post PLAIN; pre PLAIN -> post none; no SASL capability) x "
         "authmech {None, PLAIN, LOGIN, OAUTHBEARER, unknown} x one fault (or none) at a handshake step: greeting "
         "{refuse, BYE, NO, silence, close, garbage, missing OK}, STARTTLS {NO, BYE, silence, close, OK followed by an injected plaintext capability block}, TLS handshake "
@@ -44,6 +44,7 @@ SASL_VARIANTS = [
     ("pre-plain-post-none", ["PLAIN"], []),
     ("no-sasl-cap", None, None),
     ("pre-plain-post-no-sasl-line", ["PLAIN"], False),
+    ("pre-plain-post-bare-sasl-line", ["PLAIN"], "bare"),
 ]
 AUTHMECHS = [None, "PLAIN", "LOGIN", "OAUTHBEARER", "X-UNKNOWN"]
 FAULTS = [None] + \
@@ -54,12 +55,13 @@ FAULTS = [None] + \
     [("authenticate", k) for k in ("NO", "BYE", "silent", "close")] + \
     [("verdict", k) for k in ("NO", "BYE", "badpw")]
 SECOND = ["refuse", "badpw", "ok", "greeting-close"]
+ST_VALUES = [False, True, 1]      # the starttls argument: 1 = a truthy value that is not the True singleton
 KIND = {"NO": F_NO, "BYE": F_BYE, "silent": F_SILENT, "close": F_CLOSE}
 
 
 def all_cells():
     cells = []
-    for st_arg in (0, 1):
+    for st_arg in (0, 1, 2):
         for srv_tls in (0, 1):
             for sv in range(len(SASL_VARIANTS)):
                 for am in range(len(AUTHMECHS)):
@@ -229,7 +231,7 @@ def run(ch, config, res):
         second = config.get("second", 0)
     else:
         with ch.scope("run"):
-            st_arg = wl.int("starttls", 2)
+            st_arg = wl.int("starttls", 3)
             srv_tls = 1 - wl.int("srv_notls", 2)
             sv = wl.int("sasl", len(SASL_VARIANTS))
             am = wl.int("authmech", len(AUTHMECHS))
@@ -314,7 +316,7 @@ def run(ch, config, res):
                     hooks.fired = False
                     srv.inject_after_starttls = False
                     srv.cfg.users = {"user": "password"}
-                    kw = {"starttls": bool(st_arg), "authmech": AUTHMECHS[am]}
+                    kw = {"starttls": ST_VALUES[st_arg], "authmech": AUTHMECHS[am]}
                     o, failure = do(client, "connect", ("user", "password"), kw)
                     if hooks.fired:
                         res.count("fault:%s:%s" % hooks.fault)
@@ -329,7 +331,7 @@ def run(ch, config, res):
                         hooks.fault = ("greeting", "close")
                     else:
                         hooks.fault = None
-                    kw = {"starttls": bool(st_arg), "authmech": AUTHMECHS[am]}
+                    kw = {"starttls": ST_VALUES[st_arg], "authmech": AUTHMECHS[am]}
                     o, failure = do(client, "connect", ("user", "password"), kw)
                     if hooks.fired:
                         res.count("fault:second-connect:%s" % arg)
